@@ -7,28 +7,36 @@ RULE = ('all strings over a category/word alphabet (40 symbols, exhaustive up to
         'a construct-token alphabet (46 tokens, exhaustive up to L3), random strings of up to 40 symbols, every prefix / '
         'single-character deletion / adjacent transposition / insertion of every category symbol at every position of '
         'generated well-formed documents, and chains of up to 40 nested constructs (closed, truncated at every depth, one '
-        'closer removed); each in both tolerance modes under a 30 s watchdog. Oracle: the outcome is a tree whose str() '
+        'closer removed); each in both tolerance modes under a 20 s watchdog (an expiry is re-run alone with 90 s). Oracle: the outcome is a tree whose str() '
         'returns, EOFError(...expecting...), TypeError(...Malformed argument...) or one of the two documented '
         'AssertionErrors. Non-trivial = the two modes do not both accept the input, or it nests >=3 deep; distinct by string')
 ASSUMPTIONS = [
-    'a watchdog expiry is re-run alone with 120 s before it is reported as a hang',
+    'a watchdog expiry (20 s) is re-run alone with 90 s before it is reported as a hang; after one confirmed hang further inputs get 5 s',
     'nesting depth is bounded by 40 as in the statement (Python recursion limit is not the parser\'s contract)',
 ]
 
-WATCHDOG = 30.0
+WATCHDOG = 20.0
+CONFIRM = 90.0
+_HANGS = {'confirmed': 0}
 
 
 def check_string(s, sub, flags=None):
     outs = []
     for tol in (0, 1):
         case = {'src': s, 'tolerance': tol, 'sub': sub}
+        # once a hang has been confirmed in this process, further expiries are not re-run for 90 s each:
+        # the verdict is already fixed and the remaining search must stay bounded
+        first = WATCHDOG if not _HANGS['confirmed'] else 5.0
         try:
-            out = H.with_watchdog(WATCHDOG, T.outcome, s, tol)
+            out = H.with_watchdog(first, T.outcome, s, tol)
         except H.Timeout:
+            if _HANGS['confirmed']:
+                raise H.Violation('C06:hang:tolerance%d' % tol, case, 'no result within %.0f s (a hang was already confirmed with %.0f s)' % (first, CONFIRM))
             try:
-                out = H.with_watchdog(120.0, T.outcome, s, tol)
+                out = H.with_watchdog(CONFIRM, T.outcome, s, tol)
             except H.Timeout:
-                raise H.Violation('C06:hang:tolerance%d' % tol, case, 'no result within 120 s')
+                _HANGS['confirmed'] += 1
+                raise H.Violation('C06:hang:tolerance%d' % tol, case, 'no result within %.0f s (normal cost of such inputs: < 0.1 s)' % CONFIRM)
         if out[0] == 'leak':
             raise H.Violation('C06:leak:%s@%s' % (out[1], H.inner_frame(out[2])), case,
                               'TexSoup(%r, tolerance=%d) raised %r' % (s[:200], tol, out[2]))
